@@ -80,7 +80,12 @@ int main(int argc, char **argv) {
   while (std::getline(std::cin, line)) {
     std::vector<std::string> t = hx::split_ws(line);
     if (t.empty()) { std::cout << "?\n"; continue; }
-    if ((t[0] == "H" || t[0] == "N") && t.size() == 3) {
+    if (t[0] == "C") {
+      preprocess::HashCallback dflt;   // constants as compiled: the default seed of HashCallback, the native dispatch
+      const char probe[] = "constants";
+      std::cout << "shard_seed=" << dflt.Hash() << " native_is_64a=" << (util::MurmurHashNative(probe, 9, 7) == util::MurmurHash64A(probe, 9, 7) ? 1 : 0)
+                << " default_seed_64a=" << (util::MurmurHash64A(probe, 9) == util::MurmurHash64A(probe, 9, 0) ? 0 : -1) << "\n";
+    } else if ((t[0] == "H" || t[0] == "N") && t.size() == 3) {
       std::string raw = Arg(t[2]);
       char *buf = (char *)malloc(raw.size() ? raw.size() : 1);   // exact size: over-reads visible to ASan
       memcpy(buf, raw.data(), raw.size());
